@@ -53,7 +53,11 @@ def qdesc(q):
   if not hasattr(q, "get_config"):
     return ("fn", getattr(q, "__name__", str(q)))
   cfg = q.get_config()
-  return (type(q).__name__, json.dumps({k: (np.asarray(v).tolist() if hasattr(v, "shape") else str(v)) for k, v in sorted(cfg.items())}))
+  try:
+    text = str(q)        # the form in which print_qstats / qtools / users see "the quantizer of this layer"
+  except Exception as e:  # pylint: disable=broad-except
+    text = "str() raises " + type(e).__name__
+  return (type(q).__name__, json.dumps({k: (np.asarray(v).tolist() if hasattr(v, "shape") else str(v)) for k, v in sorted(cfg.items())}), text)
 
 
 def layer_quantizers(layer):
